@@ -43,7 +43,7 @@ def fromBase64 (env : Env) (s : String) : Outcome Disc :=
 /-! ## `check_digests`: one read-only validating walk with a shared set of seen digests -/
 
 def note (seen : List String) (g : String) : Outcome (List String) :=
-  if g ∈ seen then .err .rejected else .ok (g :: seen)
+  if g ∈ seen then .err .rejected else .ok (seen ++ [g])
 
 def noteAll : List String → List String → Outcome (List String)
   | [], seen => .ok seen
